@@ -43,6 +43,9 @@ CHECKS = {
  "C03": dict(engine="H", tech=H, ref="DESIGN.md §3 C03",
    text="Breadth-first to a fixpoint over all operation sequences on the real B-tree for degrees 2,3,4 over 8 keys (11 keys for degree 2 in the thorough tier), states merged on the canonical node shape; on every transition structure, length and full content (with item versions) are compared with a sorted slice, and on every newly reached shape ALL scans from EVERY pivot with early stop after 0/1/2/all items, Min/Max/Get/Has. Two-tree clone programs (writes to either side, re-clone, swap) against two independent models; the locked wrapper with Update/UpdateOrInsert over all key pairs and scans x pivots x 4 filters x 5 limits.",
    note="hooks VerifCheck/VerifShape/VerifInner come from the overlay; the concurrent clauses (clone writers, wrapper readers/writers) are engine-S scenarios"),
+ "C05": dict(engine="H", tech=H, ref="DESIGN.md §3 C05",
+   text="Breadth-first over all sequences (depth 5 quick / 7 thorough) of Set (7 option combinations) / Get (plain, remove-after-get, update-ttl) / Remove / Clear / clock advance over 3 keys on the real in-memory TTL cache for size 0..3 x default ttl 0/3 under a virtual clock, states merged on (complete implementation state, reference state); every answer plus a final probe of all keys on a replayed copy is checked against a nondeterministic 'expired = absent' reference with a one-sided eviction clause; the same histories on the in-memory and the redis-backed cache over an in-memory fake redis.Cmdable must agree step by step.",
+   note="no clock reading falls exactly on a deadline (odd ttls, +2 s ticks); fake redis implements the seven commands used with expiry at now+duration; concurrent remove-after-get race is an engine-S scenario"),
 }
 NA = {}
 
